@@ -119,11 +119,15 @@ impl Server for LocalServer {
                 history_segment
             ],
         )?;
+        #[cfg(gothenburgbitfactory_taskchampion_verif)]
+        crate::server::verif::failpoint("local.add_version.between-insert-and-latest")?;
         t.execute(
             "INSERT OR REPLACE INTO data (key, value) VALUES ('latest_version_id', ?)",
             params![&StoredUuid(version_id)],
         )
         .context("Update latest version query")?;
+        #[cfg(gothenburgbitfactory_taskchampion_verif)]
+        crate::server::verif::failpoint("local.add_version.before-commit")?;
         t.commit()?;
 
         Ok((AddVersionResult::Ok(version_id), SnapshotUrgency::None))
